@@ -373,10 +373,26 @@ def r2(ctx, r):
           (b.cond is not None and common.cmp_parts(b.cond) and key_of(common.cmp_parts(b.cond)[1]) == "length" and const_value(common.cmp_parts(b.cond)[2]) == 63)]
     r.instance()
     r.expect(len(app) == 1 and len(lb) == 1 and common.cmp_parts(lb[0].cond)[0] == ">" and dominated_by_edge(f, app[0], lb[0], 1, eh=False), f, app[0] if app else None, "label limit", "a label is appended without the `length > 63 → throw` test", okdesc="label <= 63 before append")
-    tb = [b for b in f.blocks.values() if b.cond is not None and common.cmp_parts(b.cond) and key_of(common.cmp_parts(b.cond)[1]) == "totalLength"]
+    def total_test(b):
+        """largest totalLength the test lets through: `totalLength + k > L` → L - k"""
+        co = common.cmp_oriented(b.cond, lambda x: const_value(x) is not None) if b.cond is not None else None
+        if not co or co[0] not in (">", ">="):
+            return None
+        fm = lin(co[1])
+        if fm is None or tuple(fm[1]) != ("totalLength",):
+            return None
+        return const_value(co[2]) - fm[0] - (1 if co[0] == ">=" else 0)
+    tb = [b for b in f.blocks.values() if total_test(b) is not None]
     r.instance()
     ok = len(tb) == 1 and len(app) == 1 and search(f, app[0], lambda x: x is app[0], stop=lambda x: x.block is tb[0], eh=False) is None
-    r.expect(ok, f, None, "name limit", "labels can be appended again without passing the total-length test", okdesc="name <= 255 tested after every label")
+    r.expect(ok, f, None, "name limit", "labels can be appended again without passing the total-length test", okdesc="name length tested after every label")
+    if ok:
+        # RFC 1035: a name is at most 255 octets on the wire, length octets and the root octet included; totalLength counts the
+        # labels with their length octets, so it may reach 254
+        r.instance()
+        mx = total_test(tb[0])
+        r.expect(mx == 254, f, None, "decoder name limit value", "the decoder lets a name through while the sum of its labels and length octets is <= %d; RFC 1035 allows 255 wire octets including the root octet, i.e. 254: %s"
+                 % (mx, "legal names of %d..253 characters are rejected" % (mx,) if mx < 254 else "over-long names are accepted"), okdesc="decoder: labels + length octets <= 254 (255 with the root)")
     # progress: every cycle moves the cursor
     prog = {e.block.id for e in f.stmts() if (asg(e.node) and key_of(asg(e.node)[0]) == "offset") or (e.node.get("k") == "bin" and e.node.get("op") == "+=" and key_of(e.node["lhs"]) == "offset" and lin(e.node["rhs"]) is not None and lin(e.node["rhs"])[0] >= 1)
             or (e.node.get("k") == "un" and "++" in e.node.get("op", "") and key_of(e.node["v"]) == "offset")}
@@ -614,6 +630,15 @@ def r7(ctx, r):
     rets = [e for e in common.returns(f) if search(f, pushes[0], lambda x, e=e: x is e, eh=False) is not None] if pushes else []
     r.instance()
     r.expect(len(nb) == 1 and rets and all(dominated_by_edge(f, e, nb[0], 1, eh=False) for e in rets), f, None, "encoder name limit", "encodeName returns a name without the 255-byte test", okdesc="encoder: name <= 255")
+    if len(nb) == 1:
+        co = common.cmp_oriented(nb[0].cond, lambda x: const_value(x) is not None)
+        r.instance()
+        # `encoded` holds the labels with their length octets; whether the root octet is already in it decides the constant
+        root_in = any(e.node.get("k") == "mcall" and last(e.node.get("callee", "")) == "push_back" and const_value(strip_casts(e.node["args"][0])) == 0 and search(f, e, lambda x: x.block is nb[0], eh=False) is not None for e in f.stmts())
+        want = 255 if root_in else 254
+        mx = (const_value(co[2]) - (1 if co[0] == ">=" else 0)) if co and co[0] in (">", ">=") else None
+        r.expect(mx == want, f, None, "encoder name limit value", "encodeName accepts an encoded name of up to %s octets %s the root octet; RFC 1035 allows %d there: %s" % (
+            mx, "including" if root_in else "before", want, "legal 252/253-character names are refused" if (mx or 0) < want else "over-long names are emitted"), okdesc="encoder: wire name <= 255")
     # query field order agrees with the decoder: id, flags, counts; per question name, type, class
     bq = [g for g in ctx.fb().funcs(DM + "::buildQuery", DMF) if g.ok and len(g.params) == 3]
     r.instance()
@@ -780,6 +805,80 @@ def anchors(ctx, r):
         r.ok("%s: %s" % (last(f.name), ", ".join(names)))
 
 
+def r10(ctx, r):
+    """(a) Only the root octet ends a name: the decode loop cannot be left for the normal return except through the `length == 0`
+    arm (falling out because the data ran out would accept a truncated name).  (b) 'compression pointers that loop or point out
+    of range are always errors': such errors have their own exception type, every pointer-error throw uses it, and the lenient
+    per-record handler of parseTypedRecord lets it through (rethrow handler in front of the generic one).  (c) DnsCache is shared
+    between threads: the pointer to the underlying cache is set at construction only — replacing the object in clear() destroys
+    it under concurrent readers."""
+    fb = ctx.fb()
+    f = dm(ctx, "decodeNameWithLoopDetection")
+    rets = common.returns(f)
+    zero = [b for b in f.blocks.values() if b.cond is not None and (lambda co: co is not None and co[0] == "==" and key_of(co[1]) == "length" and const_value(co[2]) == 0)(common.cmp_oriented(b.cond, lambda x: const_value(x) is not None))]
+    r.instance()
+    if len(zero) != 1 or not rets:
+        raise AnalysisBroken("decodeNameWithLoopDetection: root-octet test / return not identified")
+    w = None
+    for e in rets:
+        w = w or search(f, ("entry",), lambda x, e=e: x is e, eh=False, edge_ok=lambda b, si: not (b is zero[0] and si == 0))
+    r.expect(w is None, f, rets[0], "name ends without its root octet", "decodeNameWithLoopDetection can reach its return without having seen the zero length octet (%s): labels that run exactly to the end of the data — a truncated "
+             "name in RDATA decoded against the whole message, or behind a forward pointer — are accepted as a complete name" % witness_str(f, w), okdesc="the loop is left only through `length == 0`")
+    # (b)
+    CE = "iora::network::dns::DnsCompressionException"
+    nthrow = 0
+    for g in (f, dm(ctx, "decodeNameFromRdata")):
+        for e in g.stmts():
+            if e.node.get("k") != "throw" or not e.node.get("t"):
+                continue
+            facts = dominating_facts(g, e)
+            # the innermost facts that lead to this throw are about the pointer's VALUE (range / visited set)
+            def ptr_value(c):
+                return any(x.get("k") == "var" and x.get("n") == "pointer" for x in walk(c)) or any(x.get("k") == "var" and x.get("n") == "visitedPointers" for x in walk(c))
+            inner = [c for (c, t) in facts if elem_dominates(g, g.elem_for(c), e)] if False else [c for (c, t) in facts]
+            last_line = max([c.get("l") or 0 for c in inner] or [0])
+            about_ptr = any(ptr_value(c) for c in inner if (c.get("l") or 0) == last_line)
+            if not about_ptr:
+                continue
+            nthrow += 1
+            r.instance()
+            r.expect(e.node["t"] == CE, g, e, "pointer error with a tolerated type", "%s reports a looping / out-of-range compression pointer as %s: parseTypedRecord catches that type per record, drops only the typed view and lets the "
+                     "message through (answers=1, cname_records=0) — the resolver caches a CNAME that lost its target" % (short(g.name), short(e.node["t"])), okdesc="%s: pointer error → DnsCompressionException" % short(g.name))
+    if nthrow < 3:
+        raise AnalysisBroken("only %d pointer-error throw sites found" % nthrow)
+    ptr = dm(ctx, "parseTypedRecord")
+    for t in ptr.trys.values():
+        hs = [h if isinstance(h, str) else (h.get("t") or "...") for h in t.get("handlers", [])]
+        generic = [i for i, h in enumerate(hs) if h == "..." or "std::exception" in h or h.endswith("DnsParseException &") or "DnsException" in h]
+        if not generic:
+            continue
+        r.instance()
+        ci = [i for i, h in enumerate(hs) if "DnsCompressionException" in h]
+        ok = bool(ci) and ci[0] < generic[0]
+        if ok:
+            hb = [b for b in ptr.blocks.values() if b.label and b.label.get("k") == "catch" and "DnsCompressionException" in (b.label.get("t") or "") and b.label.get("try") == t["id"]]
+            ok = bool(hb) and any(e.kind == "stmt" and e.node.get("k") == "throw" and not e.node.get("v") for e in _reach_until_ret(ptr, hb[0].id))
+        r.expect(ok, ptr, None, "pointer error swallowed per record", "parseTypedRecord's lenient handler (%s) is not preceded by a handler that rethrows DnsCompressionException: a CNAME/MX/SRV/PTR/SOA/NAPTR name that is a "
+                 "self-pointer or points outside the message only loses its typed view" % hs[generic[0]], okdesc="DnsCompressionException rethrown before the lenient handler")
+    # (c)
+    nwr = 0
+    for g in fb.in_file(DCF):
+        if not g.ok:
+            continue
+        writes = [(e, n) for (e, n, k) in common.field_writes(g, DC + "::cache_")]
+        for (e, n) in writes:
+            nwr += 1
+            # the only legitimate writer is reached from constructors alone
+            callers = {c.name for (c, ce, cn) in ctx.cg().callers.get(g.name, [])}
+            own_ok = g.kind == "ctor" or (callers and all(fb.by_name[c][0].kind == "ctor" for c in callers if c in fb.by_name))
+            r.instance()
+            r.expect(own_ok, g, e, "shared cache object replaced", "%s assigns DnsCache::cache_ and is reachable from %s: get/put/remove dereference that pointer without a lock, so replacing the object while the cache is in "
+                     "use destroys it under a concurrent reader (heap-use-after-free; clear() racing the resolver's completion callback)" % (short(g.name), sorted(short(c) for c in callers) or "nowhere"),
+                     okdesc="%s: cache_ set during construction only" % short(g.name))
+    if nwr < 1:
+        raise AnalysisBroken("DnsCache::cache_: no write found")
+
+
 def run(ctx, ck):
     r0 = ck.run_rule("C19-R0", "the local names the rules are anchored on exist (a rename makes the analysis refuse — exit 2 — instead of raising a false alarm)", "anchor table", lambda r: anchors(ctx, r))
     if r0.broken:
@@ -792,4 +891,5 @@ def run(ctx, ck):
     ck.run_rule("C19-R6", "expiry checked on every hit; fresh expiration stored on every set; minimum TTL over every record collection; zero TTL not cached", "A2 + A10 table agreement", lambda r: r6(ctx, r))
     ck.run_rule("C19-R7", "encoder limits; query layout matches the decoder", "A2", lambda r: r7(ctx, r))
     ck.run_rule("C19-R9", "wire layout tables: field widths, order, flag masks, typed-record offsets, byte order", "A10 table extraction", lambda r: r9(ctx, r))
+    ck.run_rule("C19-R10", "names end only at the root octet; pointer errors are fatal also in RDATA; the shared cache object is never replaced", "A2 path rule + exception typestate + A3 who-may-write", lambda r: r10(ctx, r))
     ck.run_rule("C19-R8", "RDATA of A/AAAA/TXT is opaque: no rejection by byte content", "A10", lambda r: r8(ctx, r))
